@@ -67,17 +67,28 @@ def enc(v):
   return {'other': type(v).__name__}
 
 
+# Negative-index view (case field `neg_len` = n): the records of the case are sequences of length n at every
+# operator, so the REAL pipeline is built with `Index(k - n)` wherever the case says `Index(k)`, 0 <= k < n, at the
+# top of the record; the model and the Python reference keep the non-negative key.  Python's `seq[k - n] is seq[k]`
+# is the identity relied on (trusted, harness-level); the model has natural-number indices only.
+_NEG_LEN = None
+
+
+def _neg(k):
+  return k - _NEG_LEN if _NEG_LEN and 0 <= k < _NEG_LEN else k
+
+
 def mk_key(j):
   from ml_metrics._src.chainables import tree
   K = tree.Key
   if 'n' in j:
     return j['n']
   if 'i' in j:
-    return K.Index(j['i'])
+    return K.Index(_neg(j['i']))
   if 'p' in j:
     k = K()
-    for s in j['p']:
-      k = k.at(K.Index(s) if isinstance(s, int) else s)
+    for n, s in enumerate(j['p']):
+      k = k.at(K.Index(_neg(s) if n == 0 else s) if isinstance(s, int) else s)
     return k
   if 'self' in j:
     return K.SELF
@@ -491,6 +502,15 @@ def run_case(case, limit=20):
 
 def _run_case(case):
   """The real pipeline through the public API; returns the canonical observation."""
+  global _NEG_LEN
+  _NEG_LEN = case.get('neg_len')
+  try:
+    return _run_case_(case)
+  finally:
+    _NEG_LEN = None
+
+
+def _run_case_(case):
   from absl import logging as alog
   alog.set_verbosity(alog.FATAL)        # the runner logs every exception it re-raises
   sinks = []
